@@ -174,6 +174,9 @@ def oracle_c11(sc):
     # single consumer threads take in order: merge by global effect order
     took = [int(re.search(r'<ev>n(\d+)</ev>', e[2].notification_xml).group(1)) for e in sc.S.effects[:sc.n_effects]
             if e[1] == 'nq.get' and e[0] != 'W' and e[2] is not None]
+    for e in sc.S.effects[:sc.n_effects]:
+        if e[1] == 'took' and e[2] and e[3] > 0:
+            return ('take_notification returned None although %d notification(s) were queued' % e[3], 'take_none_with_queued')
     if took + ob['nq'] != dispatched:
         return ('notifications taken %r + still queued %r differ from those received %r' % (took, ob['nq'], dispatched), 'notif_lost_or_dup')
     if not faulty(spec):
@@ -293,7 +296,10 @@ def gen_spec(rng, pid):
         ns = iter(range(1, nn + 1))
         server = [(a[0], next(ns)) if a[0] == 'notif' else a for a in items]
         cons = [('take', rng.random() < 0.5) for _ in range(rng.randint(1, nn + 1))]
-        if rng.random() < 0.5: clients.append(cons)
+        if rng.random() < 0.25:                 # the session ends first, the consumer drains afterwards
+            server.append(('eof',)); cons = [('await_disc',)] + [('take', True) for _ in range(nn + 1)]
+            clients.append(cons)
+        elif rng.random() < 0.5: clients.append(cons)
         else: clients[0] = clients[0] + cons
     d = dict(profile=profile, clients=clients, server=server, eager=eager)
     if pid in ('C03', 'C04', 'C11') and rng.random() < 0.2:
@@ -319,7 +325,8 @@ SMALL = {
             dict(profile='default', clients=[[('rpc', True)], [('rpc', False)]], server=[], eager=False, wfail=[0, 0]),
             dict(profile='default', clients=[[('rpc', True)], [('rpc', True)]], server=[('partial', 0, 0), ('eof',)], eager=False, app='reenter')],
     'C11': [dict(profile='junos', clients=[[('rpc', True), ('take', False)], [('take', True)]], server=[('notif', 1), ('reply', 0), ('notif', 2)], eager=False),
-            dict(profile='default', clients=[[('rpc', True)], [('take', True), ('take', False)]], server=[('reply', 0), ('notif', 1)], eager=False)],
+            dict(profile='default', clients=[[('rpc', True)], [('take', True), ('take', False)]], server=[('reply', 0), ('notif', 1)], eager=False),
+            dict(profile='iosxr', clients=[[('rpc', True)], [('await_disc',), ('take', True), ('take', True), ('take', True)]], server=[('notif', 1), ('reply', 0), ('notif', 2), ('eof',)], eager=False)],
 }
 
 def dfs_schedules(spec, bound, cap):
@@ -363,15 +370,55 @@ def two_sessions_case():
         return 'session A took %r instead of its two notifications in order' % (xs,)
     return None
 
+def backlog_case(n=3000):
+    """A backlog of untaken notifications must not block the session thread: n notifications are dispatched with no
+    consumer (real queue.Queue, real Session code), then a reply must still be delivered to its request."""
+    import io, threading
+    from . import lts
+    lts.uninstall()
+    try:
+        from ncclient.manager import make_device_handler
+        from ncclient.transport.session import Session, NotificationHandler
+        from ncclient.capabilities import Capabilities
+        from ncclient.operations.retrieve import Get
+        dh = make_device_handler({'name': 'default'})
+        class S0(Session):
+            def __init__(self):
+                Session.__init__(self, Capabilities(dh.get_capabilities())); self._device_handler = dh; self._connected = True; self.sent = []
+            def send(self, m): self.sent.append(m)
+            def run(self): pass
+        s = S0(); s.add_listener(NotificationHandler(s._notification_q))
+        rpc = Get(s, dh, async_mode=True, timeout=5); rpc.request()
+        done = threading.Event()
+        def feed():
+            for i in range(n): s._dispatch_message(lts.notif_xml(i))
+            s._dispatch_message(lts.reply_xml(rpc.id)); done.set()
+        th = threading.Thread(target=feed, daemon=True); th.start()
+        if not done.wait(20):
+            return 'with %d notifications untaken the session thread blocks inside the notification handler: replies are no longer processed' % n
+        if not rpc.event.is_set() or rpc.reply is None:
+            return 'the reply after a notification backlog was not delivered'
+        got = []
+        while True:
+            x = s.take_notification(False, None)
+            if x is None: break
+            got.append(x.notification_xml)
+        if got != [lts.notif_xml(i) for i in range(n)]:
+            return 'backlog of %d notifications came back as %d (order or content changed)' % (n, len(got))
+        return None
+    finally:
+        lts.install()
+
 def check(ctx, pid, n_random, dfs_bound, dfs_cap, corpus=(), model=None):
     """Common body of the C03 / C04 / C11 plugins (and of the session clause of C14, with its own LTS runner)."""
     oracle = ORACLES[pid]
     lts_model = model if model is not None else ctx.model
     if pid == 'C11':
-        f = two_sessions_case()
-        ctx.count({'check': 'two_sessions'}, key='two_sessions')
-        if f:
-            ctx.fail({'check': 'two_sessions'}, f, sig=None, expected='sessions do not share notifications', actual=f)
+        for name, fn in (('two_sessions', two_sessions_case), ('backlog', backlog_case)):
+            f = fn()
+            ctx.count({'check': name}, key=name)
+            if f:
+                ctx.fail({'check': name}, f, sig=None, expected='property C11', actual=f)
     runs = []
     for doc in corpus:
         runs.append(run_case(doc['spec'], decisions=list(doc['decisions']), rng_after=False))
@@ -406,9 +453,10 @@ def check(ctx, pid, n_random, dfs_bound, dfs_cap, corpus=(), model=None):
 def search(ctx, pid, seeds, n=1500):
     oracle = ORACLES[pid]
     if pid == 'C11':
-        f = two_sessions_case()
-        if f:
-            return dict(case={'check': 'two_sessions'}, what=f, sig=None, expected='sessions do not share notifications', actual=f)
+        for name, fn in (('two_sessions', two_sessions_case), ('backlog', backlog_case)):
+            f = fn()
+            if f:
+                return dict(case={'check': name}, what=f, sig=None, expected='property C11', actual=f)
     for c in seeds:
         for extra in range(40):
             sc = run_case(c['spec'], decisions=list(c['decisions']) if extra == 0 else None, seed=extra, rng_after=(extra != 0))
@@ -430,8 +478,8 @@ def search(ctx, pid, seeds, n=1500):
 
 def replay(doc, pid):
     c = doc['case']
-    if c.get('check') == 'two_sessions':
-        f = two_sessions_case(); print('two sessions:', f or 'holds'); return f is None
+    if c.get('check') in ('two_sessions', 'backlog'):
+        f = (two_sessions_case if c['check'] == 'two_sessions' else backlog_case)(); print(c['check'], ':', f or 'holds'); return f is None
     spec = c['spec']
     spec['clients'] = [[tuple(op) for op in ops] for ops in spec['clients']]
     spec['server'] = [tuple(a) for a in spec['server']]
